@@ -75,6 +75,7 @@ func RepoDir() string {
 
 // Artifact is a compiled contract.
 type Artifact struct {
+	Probe    bool   // a simulator probe contract, not a repository contract
 	Name     string // directory name under contracts/
 	NEF      *nef.File
 	Manifest *manifest.Manifest
@@ -91,6 +92,7 @@ var (
 // other directory given as absolute path) with the neo-go compiler the
 // repository pins. Cached per process.
 func CompileContract(dir string) *Artifact {
+	probe := filepath.IsAbs(dir)
 	if !filepath.IsAbs(dir) {
 		dir = filepath.Join(RepoDir(), "contracts", dir)
 	}
@@ -100,6 +102,7 @@ func CompileContract(dir string) *Artifact {
 		return a
 	}
 	a := compileDir(dir)
+	a.Probe = probe
 	compileCache[dir] = a
 	return a
 }
@@ -235,6 +238,12 @@ type World struct {
 	GAS, NEO, Mgmt, Roles, NotaryH, Policy util.Uint160
 
 	Log []string // deterministic event log (for traces and the determinism self-test)
+
+	Opts       WorldOpts
+	Journal    []*JBlock // recorded history (only when RecordJournal was set at creation)
+	record     bool
+	pendingObs []*state.AppExecResult
+	txMeta     map[*transaction.Transaction]*JTx
 }
 
 // Logf appends to the deterministic event log.
@@ -259,8 +268,22 @@ type WorldOpts struct {
 	P2PSigExt bool
 }
 
-// NewWorld creates a chain with an n-member committee (all of them validators).
+// NewWorld creates a chain with an n-member committee (all of them validators)
+// and funds the fee payer.
 func NewWorld(o WorldOpts) *World {
+	w := newBareWorld(o)
+	// fund the payer from the validators' genesis GAS
+	script, err := smartcontract.CreateCallScript(w.GAS, "transfer", w.Validator.Hash, w.Payer.Hash, int64(40_000_000_0000_0000), nil)
+	must(err)
+	tx := w.rawTx(script, []Signer{w.Validator}, 1_0000_0000, 1_0000_0000)
+	res := w.AddBlock([]*transaction.Transaction{tx}, 1)
+	if res[0].VMState != vmstate.Halt {
+		harnessf("payer funding failed: %s", res[0].FaultException)
+	}
+	return w
+}
+
+func newBareWorld(o WorldOpts) *World {
 	n := o.N
 	if o.Label == "" {
 		o.Label = "committee"
@@ -284,7 +307,7 @@ func NewWorld(o WorldOpts) *World {
 	bc, err := core.NewBlockchain(storage.NewMemoryStore(), cfg, zap.NewNop())
 	must(err)
 	go bc.Run()
-	w := &World{BC: bc, N: n, Privs: privs, Pubs: pubs, Magic: cfg.Magic, C: map[string]*Deployed{}}
+	w := &World{BC: bc, N: n, Privs: privs, Pubs: pubs, Magic: cfg.Magic, C: map[string]*Deployed{}, Opts: o, record: RecordJournal, txMeta: map[*transaction.Transaction]*JTx{}}
 	w.Validator = Multi("validators", smartcontract.GetDefaultHonestNodeCount(n), privs)
 	w.Alphabet = Multi("alphabet", n*2/3+1, privs)
 	w.Committee = Multi("committee", n/2+1, privs)
@@ -295,14 +318,6 @@ func NewWorld(o WorldOpts) *World {
 	w.Roles = w.native(nativenames.Designation)
 	w.Policy = w.native(nativenames.Policy)
 	w.NotaryH, _ = bc.GetNativeContractScriptHash(nativenames.Notary)
-	// fund the payer from the validators' genesis GAS
-	script, err := smartcontract.CreateCallScript(w.GAS, "transfer", w.Validator.Hash, w.Payer.Hash, int64(40_000_000_0000_0000), nil)
-	must(err)
-	tx := w.rawTx(script, []Signer{w.Validator}, 1_0000_0000, 1_0000_0000)
-	res := w.AddBlock([]*transaction.Transaction{tx}, 1)
-	if res[0].VMState != vmstate.Halt {
-		harnessf("payer funding failed: %s", res[0].FaultException)
-	}
 	return w
 }
 
@@ -316,9 +331,16 @@ func (w *World) native(name string) util.Uint160 {
 }
 
 func (w *World) rawTx(script []byte, signers []Signer, sysFee, netFee int64) *transaction.Transaction {
-	tx := transaction.New(script, sysFee)
 	w.nonce++
-	tx.Nonce = w.nonce
+	return w.rawTxNonce(script, signers, sysFee, netFee, w.nonce)
+}
+
+func (w *World) rawTxNonce(script []byte, signers []Signer, sysFee, netFee int64, nonce uint32) *transaction.Transaction {
+	tx := transaction.New(script, sysFee)
+	tx.Nonce = nonce
+	if w.record {
+		w.txMeta[tx] = &JTx{Script: script, Signers: append([]Signer(nil), signers...), SysFee: sysFee, NetFee: netFee, Nonce: nonce}
+	}
 	tx.ValidUntilBlock = w.BC.BlockHeight() + 1000
 	tx.NetworkFee = netFee
 	for _, s := range signers {
@@ -373,6 +395,7 @@ func (w *World) AddBlock(txs []*transaction.Transaction, dtMillis uint64) []*sta
 	if dtMillis == 0 {
 		dtMillis = 1
 	}
+	w.FinishJournal()
 	last, err := w.BC.GetBlock(w.BC.GetHeaderHash(w.BC.BlockHeight()))
 	must(err)
 	b := &block.Block{
@@ -402,7 +425,35 @@ func (w *World) AddBlock(txs []*transaction.Transaction, dtMillis uint64) []*sta
 		}
 		res[i] = &aers[0]
 	}
+	if w.record {
+		jb := &JBlock{Dt: dtMillis}
+		for i, tx := range txs {
+			m := w.txMeta[tx]
+			if m == nil {
+				harnessf("transaction %d of block %d was not built by this world", i, b.Index)
+			}
+			m.Hash = tx.Hash()
+			jb.Txs = append(jb.Txs, m)
+			delete(w.txMeta, tx)
+		}
+		w.Journal = append(w.Journal, jb)
+		w.pendingObs = res
+	}
 	return res
+}
+
+// FinishJournal records the observation of the last block (done lazily so that
+// contracts deployed by that block are already registered in w.C).
+func (w *World) FinishJournal() {
+	if w.pendingObs != nil {
+		jb := w.Journal[len(w.Journal)-1]
+		dep := make([]bool, len(jb.Txs))
+		for i, jt := range jb.Txs {
+			dep[i] = jt.Deploy != nil
+		}
+		jb.Obs = w.observe(w.pendingObs, dep, nil)
+		w.pendingObs = nil
+	}
 }
 
 // Height is the current block index.
@@ -427,6 +478,9 @@ func (w *World) Deploy(key string, a *Artifact, data any) *Deployed {
 // TryDeploy deploys with the given signers.
 func (w *World) TryDeploy(key string, a *Artifact, data any, signers []Signer) (*Deployed, *state.AppExecResult) {
 	tx := w.CallTx(signers, -1, w.Mgmt, "deploy", a.NEFBytes, a.ManBytes, data)
+	if m := w.txMeta[tx]; m != nil {
+		m.Deploy = &JDeploy{Key: key, Art: a, Data: data}
+	}
 	aer := w.AddBlock([]*transaction.Transaction{tx}, 1)[0]
 	if aer.VMState != vmstate.Halt {
 		return nil, aer
